@@ -72,6 +72,41 @@ CLAIMED['C12'] = dict(
          'document); predicate satisfaction is a parameter. No bounded model checking is used to decide the property.',
     technique='Lean 4 proof over all finite traces (distribution of matching over alternatives) + C11 correspondence under the hypothesis')
 
+CLAIMED['C09'] = dict(
+    text='Lean 4 theorems about the model of split_and (work list, _and_presplit_transform, _split_and_not, _split_and_quantifier, empty_test, '
+         'built only through the smart constructors): splitAnd_equiv — on every valuation under which all returned expressions have a truth '
+         'value, the input has the truth value of their conjunction (refinement through double negation, De Morgan, negated implication, negated '
+         'existential, and the universal-quantifier split with its empty-domain guard, by induction on the fuel and over the work list); '
+         'splitAnd_indivisible — no returned expression is a conjunction, negated disjunction/implication, double negation, negated '
+         'existential or universal quantifier over a conjunction. Semantics: the reference evaluator Hpl/Spec/Eval.lean (errors collapsed to '
+         'undefined). Tied to the code by list-equality correspondence on an enumerated grammar and random formulas; every implementation '
+         'output is also judged by the Lean evaluator on a complete valuation grid.',
+    design_ref='DESIGN.md §6 C09',
+    note='Trusted: the reference semantics (the repository has no evaluator); equivalence is refinement (defined conjuncts => defined input), '
+         'because the hoisted conjunct len(d)=0 or p is evaluated on an empty domain where the original is not. Fuel sufficiency of the model '
+         'is checked by correspondence (the model never returned the fuel error), not proved.',
+    technique='Lean 4 proof (refinement by induction on fuel and work list, Option-level strict semantics) + correspondence + spec evaluation of outputs')
+CLAIMED['C10'] = dict(
+    text='Lean 4 theorems about the model of refactor_reference: refactor_equiv (wherever both returned parts have a truth value the input has '
+         'the value f1 and f2, for every valuation including empty quantifier domains), refactor_noRef (the first part never mentions the alias), '
+         'refactor_unchanged (input, True) when the alias is absent. Tied to the code by correspondence on an enumerated alias grammar and random '
+         'formulas; outputs are judged by the Lean evaluator, and the no-escaping-variables clause by the Lean freeVars spec on the outputs.',
+    design_ref='DESIGN.md §6 C10',
+    note='Trusted: reference semantics as C09. The clause "no bound variable occurs free in f1 or f2" is decided on implementation outputs '
+         'with the Lean freeVars function (not yet a theorem about the model).',
+    technique='Lean 4 proof (Conjoins relation by induction on fuel) + correspondence + spec evaluation / freeVars of outputs')
+CLAIMED['C13'] = dict(
+    text='Lean 4 theorems: negate_sem (logical negation, including the double-negation shortcut and the vacuous predicates), join_sem with '
+         'identity/annihilator laws, substE_sem — replacing nodes by an expression that evaluates like them under an invariant preserved by '
+         'binders preserves the value — instantiated as replaceThisWithVar_sem and replaceVarWithThis_sem for aliases not captured by a '
+         'quantifier under valuations binding the variable to the current message, substE_removes / event_alias_normalised (the stored predicate '
+         'of `t as A {f}` never mentions A, A is not an external reference) and event_alias_sem. Tied to the code by correspondence of all five '
+         'operations; laws also judged with the Lean evaluator; the inverse law is checked on implementation outputs.',
+    design_ref='DESIGN.md §6 C13',
+    note='Trusted: reference semantics as C09. subst_inverse (the two replacements undo each other for a fresh alias) is decided by '
+         'correspondence/structural comparison on implementation outputs, not proved.',
+    technique='Lean 4 proof (mutual structural induction over the AST with an environment invariant) + correspondence + spec evaluation')
+
 NOT_YET = {}
 
 
